@@ -396,88 +396,101 @@ func r11d(c *an.Ctx, stateTab map[[2]int64]int64) {
 			if !an.HoldsExclusive(st, sp.typ+".mu") {
 				locked = false
 			}
-			switch v := st.Val.(type) {
-			case *ssa.Const:
-				k, _ := an.Int64Of(v.Value)
-				nShort++
-				// guards: s == K, optionally field != E
-				sEq := false
-				var except []int64
-				for _, a := range an.Atoms(st.Block()) {
-					if a.Y == nil {
-						continue
+			// a value assigned through a result variable (an extracted helper's result) is a phi: each incoming edge is
+			// one assignment, guarded by what is known on that edge
+			var handle func(val ssa.Value, atoms []an.Atom, blk *ssa.BasicBlock, depth int)
+			handle = func(val ssa.Value, atoms []an.Atom, blk *ssa.BasicBlock, depth int) {
+				if phi, isPhi := val.(*ssa.Phi); isPhi && depth < 4 {
+					for i, e := range phi.Edges {
+						p := phi.Block().Preds[i]
+						handle(e, an.EdgeAtoms(p, phi.Block()), p, depth+1)
 					}
-					kk, isK := an.ConstInt(a.Y)
-					if !isK {
-						continue
-					}
-					if _, isP := a.X.(*ssa.Parameter); isP && a.Op == token.EQL && kk == k {
-						sEq = true
-					}
-					if isFieldNamed(a.X, sp.field) && a.Op == token.NEQ {
-						except = append(except, kk)
-					}
-				}
-				if !sEq {
-					bad = append(bad, fmt.Sprintf("constant %d assigned without the incoming value being that constant", k))
 					return
 				}
-				if sp.x != nil {
-					for _, y := range sp.consts {
-						skip := false
-						for _, e := range except {
-							if y == e {
-								skip = true
-							}
-						}
-						if skip {
+				switch v := val.(type) {
+				case *ssa.Const:
+					k, _ := an.Int64Of(v.Value)
+					nShort++
+					// guards: s == K, optionally field != E
+					sEq := false
+					var except []int64
+					for _, a := range atoms {
+						if a.Y == nil {
 							continue
 						}
-						if r, ok := sp.x(k, y); !ok || r != k {
-							bad = append(bad, fmt.Sprintf("shortcut to %d is not absorbing against %d", k, y))
+						kk, isK := an.ConstInt(a.Y)
+						if !isK {
+							continue
+						}
+						if _, isP := a.X.(*ssa.Parameter); isP && a.Op == token.EQL && kk == k {
+							sEq = true
+						}
+						if isFieldNamed(a.X, sp.field) && a.Op == token.NEQ {
+							except = append(except, kk)
 						}
 					}
-				} else {
-					// status: only UNDEFINED may be short-cut (absorbing by R11a)
-					if k != sp.consts["UNDEFINED"] {
-						bad = append(bad, fmt.Sprintf("status shortcut to %d: only UNDEFINED absorbs everything", k))
+					if !sEq {
+						bad = append(bad, fmt.Sprintf("constant %d assigned without the incoming value being that constant", k))
+						return
 					}
-				}
-			case *ssa.Parameter:
-				nLeaf++
-				// direct assignment only for leaf roles: guarded by a successful type assertion to taskRole/callRole
-				leaf := false
-				for _, a := range an.Atoms(st.Block()) {
-					if ex, isEx := a.X.(*ssa.Extract); isEx && a.Y == nil && a.Val {
-						if ta, isTA := ex.Tuple.(*ssa.TypeAssert); isTA {
-							n := an.TypeShort(ta.AssertedType)
-							if n == "*workflow.taskRole" || n == "*workflow.callRole" {
-								leaf = true
+					if sp.x != nil {
+						for _, y := range sp.consts {
+							skip := false
+							for _, e := range except {
+								if y == e {
+									skip = true
+								}
+							}
+							if skip {
+								continue
+							}
+							if r, ok := sp.x(k, y); !ok || r != k {
+								bad = append(bad, fmt.Sprintf("shortcut to %d is not absorbing against %d", k, y))
+							}
+						}
+					} else {
+						// status: only UNDEFINED may be short-cut (absorbing by R11a)
+						if k != sp.consts["UNDEFINED"] {
+							bad = append(bad, fmt.Sprintf("status shortcut to %d: only UNDEFINED absorbs everything", k))
+						}
+					}
+				case *ssa.Parameter:
+					nLeaf++
+					// direct assignment only for leaf roles: guarded by a successful type assertion to taskRole/callRole
+					leaf := false
+					for _, a := range atoms {
+						if ex, isEx := a.X.(*ssa.Extract); isEx && a.Y == nil && a.Val {
+							if ta, isTA := ex.Tuple.(*ssa.TypeAssert); isTA {
+								n := an.TypeShort(ta.AssertedType)
+								if n == "*workflow.taskRole" || n == "*workflow.callRole" {
+									leaf = true
+								}
 							}
 						}
 					}
-				}
-				// `isTaskRole || isCallRole` merges two edges: accept when both asserts exist in the function and the block is reached only from their true edges
-				if !leaf {
-					leaf = reachedOnlyFromLeafAsserts(st.Block())
-				}
-				if !leaf {
-					bad = append(bad, "the incoming value is assigned directly for a role that is not a task/call leaf")
-				}
-			case *ssa.Call:
-				if an.CalleeName(&v.Call) == sp.agg {
-					nAgg++
-					if call, isCall := v.Call.Args[0].(*ssa.Call); !isCall || an.MethodName(&call.Call) != "GetRoles" {
-						bad = append(bad, "the recomputation does not fold GetRoles() of the role")
-					} else if !sameExclusiveAcquisition(call, st, sp.typ+".mu") || !sameExclusiveAcquisition(v, st, sp.typ+".mu") {
-						bad = append(bad, "the children are read and folded outside the critical section that stores the result: of two concurrent merges the one that read the children first can store last, leaving an aggregate that is not the fold of the children")
+					// `isTaskRole || isCallRole` merges two edges: accept when both asserts exist in the function and the block is reached only from their true edges
+					if !leaf {
+						leaf = reachedOnlyFromLeafAsserts(blk)
 					}
-				} else {
-					bad = append(bad, "state assigned from an unexpected call")
+					if !leaf {
+						bad = append(bad, "the incoming value is assigned directly for a role that is not a task/call leaf")
+					}
+				case *ssa.Call:
+					if an.CalleeName(&v.Call) == sp.agg {
+						nAgg++
+						if call, isCall := v.Call.Args[0].(*ssa.Call); !isCall || an.MethodName(&call.Call) != "GetRoles" {
+							bad = append(bad, "the recomputation does not fold GetRoles() of the role")
+						} else if !sameExclusiveAcquisition(call, st, sp.typ+".mu") || !sameExclusiveAcquisition(v, st, sp.typ+".mu") {
+							bad = append(bad, "the children are read and folded outside the critical section that stores the result: of two concurrent merges the one that read the children first can store last, leaving an aggregate that is not the fold of the children")
+						}
+					} else {
+						bad = append(bad, "state assigned from an unexpected call")
+					}
+				default:
+					bad = append(bad, "unrecognised assignment shape")
 				}
-			default:
-				bad = append(bad, "unrecognised assignment shape")
 			}
+			handle(st.Val, an.Atoms(st.Block()), st.Block(), 0)
 		})
 		c.Ob(key+"|shortcuts-sound", fn.Pos(), len(bad) == 0 && nLeaf == 1 && nAgg == 1 && locked,
 			"%d shortcut(s), %d leaf assignment, %d recomputation from children, under lock: %v %v", nShort, nLeaf, nAgg, locked, bad)
